@@ -2,7 +2,6 @@ package jsonapi
 
 import (
 	"encoding/json"
-	"fmt"
 	"reflect"
 	"sort"
 )
@@ -325,8 +324,7 @@ func Equal(r1, r2 Resource) bool {
 			// TODO Fix the following condition one day. Basically, all
 			// nils (nil pointer, nil slice, etc) should be considered
 			// equal to a nil empty interface.
-			if fmt.Sprintf("%v", r1.Get(attr1.Name)) == "<nil>" &&
-				fmt.Sprintf("%v", r2.Get(attr2.Name)) == "<nil>" {
+			if isNilValue(r1.Get(attr1.Name)) && isNilValue(r2.Get(attr2.Name)) {
 				continue
 			}
 
@@ -387,6 +385,18 @@ func Equal(r1, r2 Resource) bool {
 	}
 
 	return true
+}
+
+// isNilValue reports whether v is a nil interface or a nil pointer. The string
+// "<nil>" is a regular value, not a nil.
+func isNilValue(v any) bool {
+	if v == nil {
+		return true
+	}
+
+	val := reflect.ValueOf(v)
+
+	return val.Kind() == reflect.Ptr && val.IsNil()
 }
 
 // EqualStrict is like Equal, but it also considers IDs.
